@@ -724,3 +724,53 @@ PROPS["C18"]["technique"] = 'Lean 4 two-level model (byte-exact index level + pl
 PROPS["C18"]["rule"] = "operation histories, one per line (`C18 hist op;op;...`), ops ins (auto / left:<key> / right:<key>, incl. unknown reference keys), ups, del, batch n, hashes; after EACH op the real MerkleBlob and the Lean index-level model print: Ok/Err/panic, SHA-256 of the exact blob bytes, sorted key/values, check_integrity, reload (MerkleBlob::new(bytes): loads, same key/values, integrity ok); after `hashes` the root hash and per key proof.valid() and proof.root == root. Generated: the histories on which the code broke the property before commits 934ac687/fbd3f8c2 and neighbours; exhaustive histories of length <= 2 (quick, + 1500 random of length 3) / <= 3 (thorough, first op restricted to ops that can succeed on the empty blob) over an alphabet of 64 ops on 3 keys / 3 hashes; batch sizes 0..9 on trees of 0,1,2,3,5,8,17 leaves; insert n, delete down to 0/1/2 leaves in random order, insert again (free-index reuse, promotion to the root); random histories of 1-60 ops over 6 keys / 8 hashes and over random i64 keys (negative included) with random 32-byte hashes, incl. batches with present/repeated keys and hashes and upserts to another leaf's hash. `C18 prop <history>[ @dupbatch][ @upshash]` lines evaluate the PROPERTY on the real code against a BTreeMap oracle (integrity, content, failed-op-unchanged, reload, root = independent recomputation and proofs); the model side prints the prescription; the markers (computed from the history alone) name the two classes of operation repaired by those commits. non-trivial = a distinct `hist` line"
 PROPS["C18"]["trivial"] = '^(-|bad-op|integrity=ok content=eq.*)$'
 PROPS["C18"]["trusted"] = ['the L2 model mirrors the Rust code by construction and is validated by the differential runs only (every observable, blob bytes by SHA-256, after every op of every history)']
+
+# ---- C10: consensus cost theorems; level ----
+PROPS["C10"]["theorems"] = PROPS["C10"]["theorems"] + ["ChiaModel.C10.compressed_consensus_cost"]
+PROPS["C10"]["open"] = ["compressed builder, 'a rejected attempt leaves the later output unchanged' at the level of BYTES and cost: depends on clvmr's TreeCache, which Serializer::restore does not fully undo (recorded finding); in the model the serializer sizes are oracle values, so only the decoded contents / signature / accounting are theorems (compressed_*_partial with kernel-checked counterexamples for the full sentences)",
+    "consensus cost: interned_consensus_cost / compressed_consensus_cost take the truthfulness of the declared costs in total (sum of declared = execution + condition cost of the block's own run) as hypothesis; that each bundle's run_spendbundle cost minus its byte cost adds up to that total follows from C08 bundle_path_eq_block_path per bundle but is not stated as one theorem over a list of bundles"]
+PROPS["C10"]["level"] = "proof"
+PROPS["C10"]["level_text"] = ("Proof, with the recorded findings of the compressed builder as exact exclusions. Interned builder, fully modelled: all-or-nothing (unconditional, wrapping arithmetic included), a rejected attempt changes nothing later (verdicts, cost(), finalize), contents and signature of finalize for every history, finite-set sub-additivity of interned_vbytes and from it: exact cost <= cost() <= limit in every reachable state, finalize's assert cannot fire, accepted iff true total <= limit (exactly on the limit is accepted); interned_consensus_cost: the cost finalize computes equals the cost run_block_generator2 (model, INTERNED_GENERATOR) charges for the emitted generator when the declared costs are truthful in total (via C04 native_cost_decomposition: byte cost + execution + condition cost). "
+    "Compressed builder with the incremental serializer as oracle under SerContract (restore undoes the size, size monotone, closing costs <= 2 bytes): contents, signature, no panic and cost <= limit, exact limit, compressed_consensus_cost (returned cost = consensus cost of a generator of the emitted length); the two sentences that fail on the unchanged code (estimate below final cost on a builder whose serializer no attempt has reached; first rejected-after-serialization attempt changes cost()) are stated in full, refuted by kernel-checked witnesses replayed on the real code, and proved with the exact exclusion. Hypotheses where sums occur: limit < 2^62 and >= cost of the empty generator, declared <= 2^63. "
+    "Correspondence: builder histories through both real builders, every returned generator decoded and re-run through run_block_generator2 (consensus cost compared per case).")
+
+# ---- C08: all flags, verdicts, serialisation independence (merged from the prover) ----
+# ---- C08: every flag value (INTERNED_GENERATOR), error kinds, serialisation modes (merged from the prover) ----
+PROPS["C08"]["theorems"] = ['ChiaModel.C08.bundle_path_eq_block_path_all_flags', 'ChiaModel.C08.bundle_path_eq_block_path_interned', 'ChiaModel.C08.bundle_path_eq_block_path', 'ChiaModel.C08.bundle_path_eq_block_path_any_serialization', 'ChiaModel.C08.base_cost_offset_all_flags', 'ChiaModel.C08.verdict_same_order', 'ChiaModel.C08.verdict_same_order_byte_cost', 'ChiaModel.C08.verdict_too_many', 'ChiaModel.C08.both_fail', 'ChiaModel.C08.paths_same_order', 'ChiaModel.C08.paths_too_many', 'ChiaModel.C08.serialization_independent', 'ChiaModel.C08.serialization_independent_accept', 'ChiaModel.C08.Witness.error_kind_differs_reversed_order', 'ChiaModel.C08.Witness.error_kind_differs_too_many_spends', 'ChiaModel.C08.bundle_path_eq_block_path_partial', 'ChiaModel.C08.bundle_path_eq_block_path_reversed_partial', 'ChiaModel.C08.generator_length', 'ChiaModel.C08.base_cost_offset', 'ChiaModel.Gn.runBundleWith_rules', 'ChiaModel.Gn.runBundleWith_reverse', 'ChiaModel.Gn.runSpendbundle_with', 'ChiaModel.C11.clvmBytesLen_ok', 'ChiaModel.C04.limit_exact', 'ChiaModel.C04.runSpendbundle_limit_exact', 'ChiaModel.C04.native_limit_exact', 'ChiaModel.C02.spendbundle_invariants']
+PROPS["C08"]["open"] = ['error KINDS of two failing runs are not part of the property and provably need not agree: (a) for build_generator\'s own (reversed) spend order a cost-exceeded in one path can race a reject in the other (Witness.error_kind_differs_reversed_order, 2 spends); (b) with LIMIT_SPENDS and more than 6000 spends run_spendbundle reports TooManySpends up front while run_block_generator2 runs the first 6000 spends first (Witness.error_kind_differs_too_many_spends). Proved instead: both fail (both_fail, verdict_too_many), and the same kind for equal spend order and at most 6000 spends (verdict_same_order)', 'the byte strings themselves are external: a serialisation enters the block-path model as (length, ff01 prefix, decoded tree, number of references); that the back-reference form / the builders\' output decodes to build_generator(css) is checked by correspondence (decoder = clvmr; C17 proves the deserialiser model\'s round trip separately). Generators assembled by the block builders from SEVERAL bundles are covered by C10, not here', 'under INTERNED_GENERATOR the interned size of build_generator depends on the order of the spends (Witness example 106 vs 103), so the same-order statements relate the limits through both size costs (verdict_same_order) rather than by a constant; for build_generator(css) against css itself both paths intern the same tree and the difference is exactly 20']
+PROPS["C08"]["level"] = "proof"
+PROPS["C08"]["level_text"] = ("Proof. For every spend bundle css of well-formed coin spends (32-byte parents, u64 amounts, plainly serialised reveals) whose declared puzzle hashes match, fewer than 2^64 spends, EVERY flag set (INTERNED_GENERATOR, LIMIT_SPENDS, strictness flags, ...), every interpreter result (universally quantified) and every limit L, with a signature verdict that does not depend on the listing order of the (pk, msg) pairs: "
+    "(bundle_path_eq_block_path_all_flags) run_spendbundle(css, L) accepts and its signature check passes iff run_block_generator2 accepts build_generator(css) - which lists the spends in REVERSE order - under L + offset, where offset = 20 + 2*cost_per_byte in byte-cost mode and exactly 20 under INTERNED_GENERATOR (both paths intern the same tree, quote wrapper included: base_cost_offset_all_flags); the two summaries agree up to the mempool visitor's eligibility bits and the order of the spends (spend records reversed, fee, locks, amounts, condition cost equal, AGG_SIG_UNSAFE pairs up to order), block cost = bundle cost + offset, execution cost + 20 (bundle_path_eq_block_path_interned is the flag-set instance). "
+    "(serialization_independent, bundle_path_eq_block_path_any_serialization) the block-path model reads the generator bytes only through (length, ff01 prefix, decoded tree, reference count): for two serialisations of the same tree its results are EQUAL (verdict, error kind, conditions, cost) under INTERNED_GENERATOR, and in byte-cost mode equal after shifting limit and cost by (len2-len1)*cost_per_byte; hence the bundle path agrees with the block path on ANY serialisation of build_generator(css), with block cost + saved bytes' cost = bundle cost + offset - the admission-time cost plus the fixed offset bounds the block cost of every serialisation and is attained by the plain one. "
+    "(generator_length, base_cost_offset) predicted generator length = actual plain serialised length; size costs differ by exactly the two wrapper bytes. "
+    "Verdicts of failing runs: both_fail (one path fails iff the other does, up to the signature stage the bundle path leaves to its caller), verdict_same_order (equal spend order, at most 6000 spends: the SAME error kind in both directions, limits related through both size costs), verdict_too_many (more than 6000 spends under LIMIT_SPENDS: both fail); that error kinds can differ otherwise is shown by two kernel-checked counterexamples (Witness.error_kind_differs_reversed_order, Witness.error_kind_differs_too_many_spends). "
+    "Proof route: run_spendbundle with its base cost as a parameter (Gn.runBundleWith, = runSpendbundle by rfl) refines the order-free rules of C01 for every flag set (runBundleWith_rules), so reversing the bundle at a FIXED base cost changes nothing (runBundleWith_reverse; needed because the interned size is order-dependent); the spend loops of the two paths are related step by step (nativeLoop_bundleLoop). The models are tied to the code by correspondence on every generated bundle (byte-exact generators, plain and back-reference forms, both block paths, INTERNED_GENERATOR included).")
+PROPS["C08"]["level_note"] = 'Trusted: Lean kernel + standard axioms; clvmr interpreter (its results are universally quantified parameters) and serialisers/deserialisers (byte comparison, decoded tree on the case line); harness; model = code on the cases run. Which error a rejected bundle reports is not part of the property (two counterexamples to kind agreement are proved).'
+PROPS["C08"]["technique"] = "Lean 4 theorems relating the mempool-path and block-path models for all bundles / flags (INTERNED_GENERATOR included) / limits / serialisations of the same tree, incl. error-kind agreement with its exact side conditions and kernel-checked counterexamples + translator for clvm_bytes_len + differential correspondence incl. byte-exact generator serialisation"
+
+# ---- C01: table-driven argument grammar (merged from the prover) ----
+# ---- C01: argument grammar as an independent data table; message-opcode inversion (merged from prover p01b) ----
+PROPS["C01"]["theorems"] = ['ChiaModel.C01.C01_refines', 'ChiaModel.C01.C01_rejects', 'ChiaModel.C01.C01_summary_unique',
+    'ChiaModel.C01.C01_refines_grammar', 'ChiaModel.C01.C01_rejects_grammar', 'ChiaModel.C01.condLoop_refines_grammar',
+    'ChiaModel.C01.parseArgs_table', 'ChiaModel.Grammar.parseArgs_eq_spec', 'ChiaModel.C01.parse_table',
+    'ChiaModel.C01.int_classes_spec',
+    'ChiaModel.C01.message_opcode_inversion', 'ChiaModel.C01.message_keys_wellformed_all', 'ChiaModel.C01.createCoin_opcode_inversion',
+    'ChiaModel.C01.grammar_domain', 'ChiaModel.C01.aggSig_grammar', 'ChiaModel.C01.grammar_groups', 'ChiaModel.C01.flag_exemptions',
+    'ChiaModel.C01.endpointFields_bits', 'ChiaModel.C01.build_total',
+    'ChiaModel.C01.spend_refines', 'ChiaModel.C01.spend_rejects', 'ChiaModel.C01.spend_accepts_order_free', 'ChiaModel.C01.spend_result_fields',
+    'ChiaModel.C01.summary_aggregates_spec', 'ChiaModel.C01.spend_locks_spec', 'ChiaModel.C01.condLoop_refines',
+    'ChiaModel.C01.dedup_flag_closed_form', 'ChiaModel.C01.ff_flag_closed_form', 'ChiaModel.C01.flags_empty_visitor',
+    'ChiaModel.C01.msgKey_injective', 'ChiaModel.C01.message_keys_wellformed',
+    'ChiaModel.C01.opcode_whitelist', 'ChiaModel.C01.opcode_constants', 'ChiaModel.C01.parseOpcode_spec', 'ChiaModel.C01.validateConditions_iff']
+PROPS["C01"]["gen_theorems"] = ["ChiaModel.C01.opcode_whitelist", "ChiaModel.C01.opcode_constants",
+    "ChiaModel.C01.grammar_domain", "ChiaModel.C01.aggSig_grammar", "ChiaModel.C01.grammar_groups", "ChiaModel.C01.flag_exemptions"]
+PROPS["C01"]["open"] = []
+PROPS["C01"]["level"] = "proof"
+PROPS["C01"]["level_text"] = ("Proof of refinement to an order-free declarative rule set with a table-driven argument grammar + correspondence. For every tree, every flag set, both visitors, every cost limit and every signature verdict: "
+    "C01_refines / C01_refines_grammar: the parse_spends model accepts with (bundle, state) iff the tree parses as a list of spend tuples ps (specParseBundle: list termination, tuple shape, sanitised parent / puzzle hash / amount, per condition the opcode rule parseOpcode_spec and the ARGUMENT GRAMMAR TABLE), BundleAccepts holds (spend count within the limit, coin ids pairwise distinct, total cost <= limit, per spend SpendAccepts - nine order-free clauses: no duplicate outputs, concurring relative locks / birth facts, no impossible lock pairs, assert-my-* facts equal to the coin's attributes, ephemeral restrictions, fee and announcement budgets - total fee < 2^64, the deferred cross-spend assertions each have a counterpart in the bundle, signature verdict) and (bundle, state) = bundleSummary ps, whose 48 per-spend fields are proved to be maxima / minima / common values / sums / filtered lists of the conditions (spend_result_fields, summary_aggregates_spec); C01_rejects / C01_rejects_grammar: it rejects iff no such ps exists. "
+    "The per-condition argument grammar is now an independent specification (Spec/ArgGrammar.lean, written from DESIGN Appendix A.1 and the Rust parse_args / sanitizers / SpendId::parse, not from the model): a data table grammar : opcode -> (required argument kinds in order, tail rule) for the 35 one-byte opcodes and all two-byte opcodes; one decoding function per kind (hash32 / pubkey48 exact lengths, announceMsg <= 1024 bytes, integers by the four classes canon / neg / over / bad of sanitize_uint with a per-kind policy: amounts, SOFTFORK cost and birth assertions reject neg and over, ASSERT_{SECONDS,HEIGHT}_* turn neg into a vacuous condition and reject over, ASSERT_BEFORE_* reject neg and turn over into a vacuous condition - skip for absolute, skipRelativeCondition for relative kinds - bad i.e. a redundant leading zero always rejects; message mode = canonical integer 0..63); four tail rules (exact; ignored for REMARK / SOFTFORK / two-byte; the CREATE_COIN memo rule with hint = first memo iff an atom of 1..32 bytes; the mode-selected end-point fields of SEND / RECEIVE_MESSAGE with 7 = coin id); the STRICT_ARGS_COUNT terminator rule stated once; NO_UNKNOWN_CONDS for SOFTFORK and two-byte opcodes; a table of constructors. parseArgs_table (parseArgs_eq_spec): the model's parseArgs equals this interpreter on EVERY tree, EVERY opcode number (unrecognised ones included) and EVERY flag set; parse_table lifts it to condition lists and generator outputs. int_classes_spec: for byte strings and widths <= 8 the class canon v holds iff the atom is canonNat v with v < 256^w (nothing truncated, zero = empty atom only), neg iff the two's-complement value is negative, over iff canonical non-negative with value >= 256^w, bad iff non-negative with a redundant leading zero. Table sanity (decide): the opcodes with an entry are exactly the whitelist extracted from parse_opcode plus 256..65535 (grammar_domain), every AGG_SIG_* is (pubkey48, announceMsg) (aggSig_grammar), the complete grouping of opcodes by grammar (grammar_groups), only REMARK / SOFTFORK are exempt from the terminator rule and only SOFTFORK falls to NO_UNKNOWN_CONDS among one-byte opcodes (flag_exemptions), the end-point field table equals the bit rule (endpointFields_bits), and 82 boundary examples (33-byte hash, 1025-byte message, 2^64, leading zero, negative locks, extra argument with / without STRICT_ARGS_COUNT, hints of 32 / 33 / 0 bytes / pair). message_opcode_inversion (formerly open): only opcodes 66 / 67 parse to message conditions, so message_keys_wellformed_all covers every parsed message condition; createCoin_opcode_inversion likewise for 51. "
+    "spend_accepts_order_free: the per-spend acceptance predicate is invariant under permutation of the conditions; the mempool eligibility flags have closed forms (dedup_flag_closed_form, ff_flag_closed_form, flags_empty_visitor); message keys are injective (msgKey_injective). "
+    "The opcode whitelist and cost constants are regenerated from the source (opcode_whitelist, opcode_constants, parseOpcode_spec); validate_conditions is proved equivalent to the declarative cross-spend predicates (validateConditions_iff). "
+    "What the specification still shares with the model: the mempool eligibility flags inside the summary fold (closed forms proved) and the cost table in list form (C04 proves it equal to the consensus table). The model as a whole is compared with the real parse_spends on every generated tree: verdict and the full summary (incl. an exhaustive single-condition sweep over every opcode x argument shape x flags).")
+PROPS["C01"]["level_note"] = ("Trusted: Lean kernel + standard axioms; hand model = code only on the cases run (the argument grammar is now ALSO pinned by an independent table proved equal to the model, so a model error in parse_args would have to coincide with the same error in the table written from Appendix A / the source); blst key validity enters as a per-case oracle (list of valid keys computed by the harness with chia_bls); signature offered is the identity, so BLS verification reduces to `no pairs collected` (C05 covers the signature rule). Trees are values: OwnedSpendConditions::from compares the hint node with a.nil() by pointer, so an empty first memo that is a zero-length substr of a heap atom would be reported as Some(\"\") instead of None (DESIGN 12.3, not reachable from deserialised trees).")
+PROPS["C01"]["technique"] = "Lean 4 refinement theorem (executable parse_spends model <-> order-free declarative acceptance predicate and summary function, for all trees/flags/visitors/limits) with a table-driven argument grammar proved equal to the model's parse_args + translator for opcode/cost tables + differential correspondence on the full summary"
